@@ -47,6 +47,27 @@ def W(v):
     raise TypeError(repr(v))
 
 
+def WX(v):
+    """abstract float (Fraction = finite, or a Python float special) -> wire xfloat"""
+    if isinstance(v, Fr):
+        return [0, v]
+    if isinstance(v, float):
+        if v != v:
+            return [1]
+        if v == float("inf"):
+            return [2]
+        if v == float("-inf"):
+            return [3]
+    raise TypeError(repr(v))
+
+
+def m_x(w):
+    """wire xfloat -> normal form shared with i_val"""
+    if w[0] == 0:
+        return m_q(w[1])
+    return ("x", ["", "nan", "inf", "-inf"][w[0]])
+
+
 def Wopt(v):
     return [] if v is ABSENT else [W(v)]
 
@@ -271,11 +292,15 @@ def i_events(evs):
 
 
 def zero_noise(model_applied, impl_applied, model_mode, impl_mode) -> bool:
-    """The one place where exact rationals and binary64 may legitimately take different branches:
-    the model's applied speed is exactly 0 (mode coast) while the float computation left a non-zero
-    residue below 1e-9 (mode drive), e.g. 0.1 + (-0.1/20)*20.  The property allows it ('to float rounding')."""
-    return (model_mode == ("s", "coast") and impl_mode == ("s", "drive") and model_applied[0] == "f"
-            and impl_applied[0] == "f" and model_applied[1] == 0 and 0 < abs(impl_applied[1]) <= TOL)
+    """The one place where exact rationals and binary64 may legitimately take different branches: on one side the
+    applied speed is exactly 0 (mode coast) while on the other side the computation left a non-zero residue below
+    1e-9 (mode drive), e.g. 0.1 + (-0.1/20)*20 in floats, or a ramp step that is exactly 0.0 in floats and 1e-17 over
+    the rationals.  The property allows it ('to float rounding')."""
+    if model_applied[0] != "f" or impl_applied[0] != "f":
+        return False
+    a, b = model_applied[1], impl_applied[1]
+    return ((model_mode == ("s", "coast") and impl_mode == ("s", "drive") and a == 0 and 0 < abs(b) <= TOL)
+            or (impl_mode == ("s", "coast") and model_mode == ("s", "drive") and b == 0 and 0 < abs(a) <= TOL))
 
 
 # --------------------------------------------------------------------------
